@@ -717,6 +717,20 @@ def rule_uf(trees):
                 res.ok()
             else:
                 res.bad("M-UF:union_roots_into:shape", "eqlog-runtime/src/unification.rs:%s" % fn["ln"], "union_roots_into does not assert both arguments are roots and set parents[first] = second")
+        if name == "root":
+            # path compression may only re-point an element to something read from `parents` (an ancestor), inside the walk
+            assigns = [x for x in walk(fn["b"]) if kind(x) == "assign" and "self.parents" in expr_str(x["lhs"])]
+            okr = bool(assigns) and all(kind(x["rhs"]) == "index" and expr_str(x["rhs"]["b"]) == "self.parents" for x in assigns)
+            loops = [x for x in walk(fn["b"]) if kind(x) == "while"]
+            okr = okr and len(loops) == 1 and kind(loops[0]["c"]) == "bin" and loops[0]["c"]["op"] == "!="
+            last = stmt_expr(fn["b"]["s"][-1]) if fn["b"]["s"] else None
+            ps = [p_["p"]["n"] for p_ in fn["params"] if kind(p_) == "param" and kind(p_["p"]) == "pid"]
+            okr = okr and last is not None and ps and expr_str(last) == ps[0]
+            if okr:
+                res.ok()
+            else:
+                res.bad("M-UF:root:compression-target", "eqlog-runtime/src/unification.rs:%s" % fn["ln"],
+                        "Unification::root must walk `while el != parent`, re-point elements only to values read from parents, and return the element it stopped at")
         if name == "root_const":
             if any(kind(x) == "assign" and "self." in expr_str(x["lhs"]) for x in walk(fn["b"])):
                 res.bad("M-UF:root_const:writes", "eqlog-runtime/src/unification.rs:%s" % fn["ln"], "root_const writes to self")
